@@ -74,6 +74,28 @@ Theorem C18_next_is_fetch_and_increment :
     dev_at (fst (a_step s (NextFCntDn e))) e
     = option_map (fun old => upd_dev_state old (rd_fup old) ((rd_fdn old + 1) mod 65536) (rd_kw old)) (dev_at s e).
 Proof. exact next_is_fetch_and_increment. Qed.
+(* the downlink queue of a device: what is created is listed, what is deleted is gone, nothing done for another device
+   touches it; the status operations the pipeline uses (C06, C08) change exactly the messages their condition names and
+   only in the time / counter columns; the next unsent message is the oldest with sent_time = 0 *)
+Theorem C18_queue_laws :
+  forall s,
+  (forall o e, down_target o <> Some e -> outbox_of (fst (a_step s o)) e = outbox_of s e) /\
+  (forall m, snd (a_step s (CreateDownstreamMessage m)) = ROk ->
+             outbox_of (fst (a_step s (CreateDownstreamMessage m))) (dn_eui m) = outbox_of s (dn_eui m) ++ [m]) /\
+  (forall e c, snd (a_step s (DeleteDownstreamMessage e c)) = ROk ->
+               outbox_of (fst (a_step s (DeleteDownstreamMessage e c))) e = filter (fun x => negb (dn_created x =? c)%Z) (outbox_of s e)).
+Proof. exact downstream_laws. Qed.
+Theorem C18_queue_status_laws :
+  forall s e,
+  (forall c sent fc, outbox_of (fst (a_step s (SetMessageSentTime e c sent fc))) e
+     = map (fun x => if (dn_created x =? c)%Z then dn_times x sent (dn_acktime x) fc else x) (outbox_of s e)) /\
+  (forall fc ackt, outbox_of (fst (a_step s (UpdateMessageAckTime e fc ackt))) e
+     = map (fun x => if (dn_fcnt x =? fc) && (0 <? dn_sent x)%Z && (dn_acktime x =? 0)%Z then dn_times x (dn_sent x) ackt (dn_fcnt x) else x) (outbox_of s e)) /\
+  (outbox_of (fst (a_step s (ResetActiveAcks e))) e
+     = map (fun x => if (0 <? dn_sent x)%Z && (dn_acktime x =? 0)%Z && dn_ack x then dn_times x 0%Z (dn_acktime x) 0 else x) (outbox_of s e)) /\
+  (snd (a_step s (GetNextUnsentMessage e))
+     = match sort_by dn_created (filter (fun x => (dn_sent x =? 0)%Z) (outbox_of s e)) with m :: _ => RDowns [m] | [] => RNotFound end).
+Proof. exact message_status_laws. Qed.
 Theorem C18_one_device_per_eui : forall s o, unique_devs s -> unique_devs (fst (a_step s o)).
 Proof. exact one_device_per_eui. Qed.
 Theorem C18_each_operation_writes_its_own_table :
@@ -113,3 +135,5 @@ Print Assumptions C18_each_operation_writes_its_own_table.
 Print Assumptions C18_advance_is_compare_and_store.
 Print Assumptions C18_advance_answers_ok_iff_not_passed.
 Print Assumptions C18_next_is_fetch_and_increment.
+Print Assumptions C18_queue_laws.
+Print Assumptions C18_queue_status_laws.
